@@ -66,60 +66,72 @@ Section ValueInd.
     end.
 End ValueInd.
 
-(** * counting: `seen < len` is false only if every key is a distinct known name *)
-Lemma NoDup_filter {A} (p : A -> bool) l : NoDup l -> NoDup (filter p l).
-Proof.
-  induction 1 as [|x l Hx Hl IH]; cbn [filter]; [constructor|].
-  destruct (p x); [constructor; [rewrite filter_In; tauto | exact IH] | exact IH].
-Qed.
-Lemma filter_map_comm {A B} (f : A -> B) (q : B -> bool) l : map f (filter (fun x => q (f x)) l) = filter q (map f l).
-Proof. induction l as [|a l IH]; cbn [filter map]; [reflexivity|]. destruct (q (f a)); cbn [map]; rewrite IH; reflexivity. Qed.
-
-Lemma count_cover (names keys : list str) :
-  NoDup names -> length keys <= length (filter (fun n => mem n keys) names) -> NoDup keys /\ incl keys names.
-Proof.
-  intros Hnd Hlen. set (F := filter (fun n => mem n keys) names) in *.
-  assert (HF : NoDup F) by (apply NoDup_filter; exact Hnd).
-  assert (Hinc : incl F keys) by (intros x Hx; apply filter_In in Hx as [_ Hx]; apply mem_In; exact Hx).
-  split.
-  - apply (NoDup_incl_NoDup HF Hlen Hinc).
-  - intros x Hx. assert (Hx' : In x F) by (apply (NoDup_length_incl HF Hlen Hinc); exact Hx).
-    apply filter_In in Hx'. tauto.
-Qed.
-
+(** * counting: `seen < len` is false only if every given name is a declared one *)
 Definition keys_of (fs : list (ident * value)) : list str := map (fun kv => iname (fst kv)) fs.
+(** the entry is named like one of the definitions *)
+Definition known (defs : list inputvaldef) (kv : ident * value) : bool :=
+  existsb (fun d => str_eqb (iname (iv_name d)) (iname (fst kv))) defs.
 
-Lemma look_field_some cv ef fs : is_some (look_field cv ef fs) = mem (iname (iv_name ef)) (keys_of fs).
+Lemma filter_length_le {A} (p : A -> bool) l : length (filter p l) <= length l.
+Proof. induction l as [|a l IH]; cbn [filter length]; [lia|]. destruct (p a); cbn [length]; lia. Qed.
+Lemma filter_length_all {A} (p : A -> bool) l : length l <= length (filter p l) -> forallb p l = true.
 Proof.
-  induction fs as [|[k fv] r IH]; [reflexivity|]. cbn [look_field keys_of map fst]. unfold mem. cbn [existsb].
-  destruct (str_eqb (iname (iv_name ef)) (iname k)); [reflexivity | exact IH].
+  induction l as [|a l IH]; cbn [filter length forallb]; [reflexivity|].
+  destruct (p a); cbn [length andb]; intros H; [apply IH; lia|]. pose proof (filter_length_le p l). lia.
+Qed.
+Lemma filter_or_disjoint {A} (p q : A -> bool) l :
+  (forall x, p x = true -> q x = false) ->
+  length (filter (fun x => p x || q x) l) = length (filter p l) + length (filter q l).
+Proof.
+  intros H. induction l as [|a l IH]; cbn [filter length]; [reflexivity|].
+  destruct (p a) eqn:P; cbn [orb].
+  - rewrite (H a P). cbn [length]. lia.
+  - destruct (q a); cbn [length]; lia.
+Qed.
+
+(** with distinct definition names, the occurrences counted definition by definition are the known entries *)
+Lemma occ_sum_known defs al :
+  NoDup (map (fun d => iname (iv_name d)) defs) ->
+  list_sum (map (fun d => occ_count (iname (iv_name d)) al) defs) = length (filter (known defs) al).
+Proof.
+  induction defs as [|d r IH]; intros Hnd; cbn [map list_sum fold_right].
+  - unfold known. cbn [existsb]. induction al as [|x al IHal]; cbn [filter length]; [reflexivity | exact IHal].
+  - cbn [map] in Hnd. inversion Hnd as [|? ? Hx Hr]; subst. fold (list_sum (map (fun d0 => occ_count (iname (iv_name d0)) al) r)).
+    rewrite (IH Hr). unfold occ_count.
+    rewrite <- (filter_or_disjoint (fun kv : ident * value => str_eqb (iname (iv_name d)) (iname (fst kv))) (known r) al).
+    + f_equal.
+    + intros kv E. apply str_eqb_eq in E. unfold known. apply not_true_iff_false. intros K.
+      apply existsb_exists in K as [d' [Hd' E']]. apply str_eqb_eq in E'. apply Hx. rewrite E, <- E'.
+      apply (in_map (fun d0 => iname (iv_name d0))). exact Hd'.
+Qed.
+
+Lemma app_nil_intro' {A} (a b : list A) : a = [] -> b = [] -> a ++ b = [].
+Proof. intros -> ->. reflexivity. Qed.
+
+Lemma occ_errs_nil cv ef fs :
+  occ_errs cv ef fs = [] <->
+  forall k fv, In (k, fv) fs -> iname (iv_name ef) = iname k -> cv fv (expected_ty ef fv) = [].
+Proof.
+  induction fs as [|[k fv] r IH]; cbn [occ_errs]; [split; [intros _ ? ? [] | reflexivity]|]. split.
+  - intros H. apply app_eq_nil in H as [H1 H2]. intros k' fv' [E|Hin] Hn.
+    + injection E as <- <-. rewrite Hn, str_eqb_refl in H1. exact H1.
+    + apply (proj1 IH H2 k' fv' Hin Hn).
+  - intros H. apply app_nil_intro'.
+    + destruct (str_eqb (iname (iv_name ef)) (iname k)) eqn:E; [|reflexivity]. apply (H k fv (or_introl eq_refl)). apply str_eqb_eq. exact E.
+    + apply IH. intros k' fv' Hin. apply H. right; exact Hin.
+Qed.
+
+Lemma occ_count_pos name fs : 0 < occ_count name fs <-> In name (keys_of fs).
+Proof.
+  unfold occ_count, keys_of. induction fs as [|[k fv] r IH]; cbn [filter length map fst]; [split; [lia | intros []]|].
+  destruct (str_eqb name (iname k)) eqn:E; cbn [length In].
+  - apply str_eqb_eq in E. split; [intros _; left; symmetry; exact E | lia].
+  - apply str_eqb_neq in E. rewrite IH. split; [tauto | intros [H|H]; [congruence | exact H]].
 Qed.
 Lemma find_arg_some n al : is_some (find_arg n al) = mem n (keys_of al).
 Proof.
   induction al as [|[k fv] r IH]; [reflexivity|]. cbn [find_arg keys_of map fst]. unfold mem. cbn [existsb].
   destruct (str_eqb n (iname k)); [reflexivity | exact IH].
-Qed.
-
-(** with distinct keys, the first entry for a key is any entry for that key *)
-Lemma look_field_In cv ef fs k fv :
-  NoDup (keys_of fs) -> In (k, fv) fs -> iname (iv_name ef) = iname k -> look_field cv ef fs = Some (cv fv (iv_type ef)).
-Proof.
-  induction fs as [|[k' fv'] r IH]; intros Hnd Hin He; [contradiction|]. cbn [look_field].
-  cbn [keys_of map fst] in Hnd. inversion Hnd as [|? ? Hx Hl]; subst.
-  destruct Hin as [Heq|Hin].
-  - injection Heq as -> ->. rewrite He, str_eqb_refl. reflexivity.
-  - destruct (str_eqb (iname (iv_name ef)) (iname k')) eqn:E; [|apply IH; assumption].
-    exfalso. apply Hx. apply str_eqb_eq in E. rewrite <- E, He. apply (in_map (fun kv => iname (fst kv)) r (k, fv)). exact Hin.
-Qed.
-Lemma find_arg_In n al k v :
-  NoDup (keys_of al) -> In (k, v) al -> n = iname k -> find_arg n al = Some v.
-Proof.
-  induction al as [|[k' v'] r IH]; intros Hnd Hin He; [contradiction|]. cbn [find_arg].
-  cbn [keys_of map fst] in Hnd. inversion Hnd as [|? ? Hx Hl]; subst.
-  destruct Hin as [Heq|Hin].
-  - injection Heq as -> ->. rewrite str_eqb_refl. reflexivity.
-  - destruct (str_eqb (iname k) (iname k')) eqn:E; [|apply IH; auto].
-    exfalso. apply Hx. apply str_eqb_eq in E. rewrite <- E. apply (in_map (fun kv => iname (fst kv)) r (k, v)). exact Hin.
 Qed.
 
 Lemma arg_named_In l n : In n (map (fun a => iname (iv_name a)) l) -> exists a, arg_named l n = Some a /\ iname (iv_name a) = n.
@@ -131,6 +143,21 @@ Proof.
 Qed.
 Lemma arg_named_some l n a : arg_named l n = Some a -> In a l /\ iname (iv_name a) = n.
 Proof. unfold arg_named. intros H. apply find_some in H as [Hi He]. apply str_eqb_eq in He. tauto. Qed.
+Lemma known_arg_named defs kv : known defs kv = true -> exists ad, arg_named defs (iname (fst kv)) = Some ad.
+Proof.
+  unfold known. intros H. apply existsb_exists in H as [d [Hd E]]. apply str_eqb_eq in E.
+  destruct (arg_named_In defs (iname (fst kv))) as [a [Ha _]]; [rewrite <- E; apply (in_map (fun a => iname (iv_name a))); exact Hd|].
+  exists a. exact Ha.
+Qed.
+(** unique definitions: looking a name up returns the definition we already hold *)
+Lemma arg_named_unique l a :
+  NoDup (map (fun x => iname (iv_name x)) l) -> In a l -> arg_named l (iname (iv_name a)) = Some a.
+Proof.
+  unfold arg_named. induction l as [|x l IH]; intros Hnd Hin; [contradiction|]. cbn [find map] in *.
+  inversion Hnd as [|? ? Hx Hl]; subst. destruct Hin as [->|Hin]; [rewrite str_eqb_refl; reflexivity|].
+  destruct (str_eqb (iname (iv_name x)) (iname (iv_name a))) eqn:E; [|apply IH; assumption].
+  exfalso. apply Hx. apply str_eqb_eq in E. rewrite E. apply (in_map (fun x => iname (iv_name x))). exact Hin.
+Qed.
 
 Lemma iv_required_is a : iv_required a = is_required a.
 Proof. unfold iv_required, is_required. destruct (iv_type a), (iv_default a); reflexivity. Qed.
@@ -152,16 +179,54 @@ Proof.
   rewrite digits_value_parse. destruct (parse_digits 0 _); reflexivity.
 Qed.
 
+(** variables nested in a literal *)
+Lemma vars_in_value_eq v :
+  vars_in_value v = match v with
+                    | VVar name p => [err (UnknownVariable name) p]
+                    | VList _ vs => flat_map vars_in_value vs
+                    | VObject _ fs => flat_map (fun kv : ident * value => vars_in_value (snd kv)) fs
+                    | _ => [] end.
+Proof.
+  destruct v; try reflexivity. cbn [vars_in_value]. induction fs as [|[k fv] r IH]; [reflexivity|].
+  cbn [flat_map snd]. rewrite <- IH. reflexivity.
+Qed.
+Lemma no_vars_eq v :
+  no_vars v = match v with
+              | VVar _ _ => false
+              | VList _ vs => forallb no_vars vs
+              | VObject _ fs => forallb (fun kv : ident * value => no_vars (snd kv)) fs
+              | _ => true end.
+Proof.
+  destruct v; try reflexivity. cbn [no_vars]. induction fs as [|[k fv] r IH]; [reflexivity|].
+  cbn [forallb snd]. rewrite <- IH. reflexivity.
+Qed.
+Lemma vars_nil_no_vars v : vars_in_value v = [] <-> no_vars v = true.
+Proof.
+  induction v using value_ind'; rewrite vars_in_value_eq, no_vars_eq; try (split; [reflexivity | reflexivity]); try (split; discriminate).
+  - rewrite flat_map_nil, forallb_forall. rewrite Forall_forall in H. split; intros Hx e He; apply (H e He); apply Hx; exact He.
+  - rewrite flat_map_nil, forallb_forall. rewrite Forall_forall in H. split; intros Hx e He; apply (H e He); apply Hx; exact He.
+Qed.
+
+(** a variable is never accepted, whatever the expected type *)
+Lemma check_value_var doc n p t : check_value doc (VVar n p) t <> [].
+Proof. rewrite check_value_eq. discriminate. Qed.
+Lemma expected_ty_nil doc d v : check_value doc v (expected_ty d v) = [] -> check_value doc v (iv_type d) = [].
+Proof.
+  intros H. destruct v; try (unfold expected_ty in H; destruct (iv_type d); exact H).
+  exfalso. exact (check_value_var _ _ _ _ H).
+Qed.
+
 Lemma builtin_scalar_sound n v :
+  (if is_builtin_scalar_name n then [] else vars_in_value v) = [] ->
   builtin_scalar_ok n v = true -> (forall q, v <> VNull q) -> (forall x q, v <> VVar x q) ->
   (if str_eqb n (s "Int") then (match v with VInt _ x => negb true || int32 x | _ => false end)
    else if str_eqb n (s "Float") then (match v with VInt _ _ | VFloat _ _ => true | _ => false end)
    else if str_eqb n (s "String") then (match v with VString _ _ => true | _ => false end)
    else if str_eqb n (s "Boolean") then (match v with VBool _ _ => true | _ => false end)
    else if str_eqb n (s "ID") then (match v with VString _ _ | VInt _ _ => true | _ => false end)
-   else true) = true.
+   else no_vars v) = true.
 Proof.
-  unfold builtin_scalar_ok. intros H Hn Hv.
+  unfold builtin_scalar_ok, is_builtin_scalar_name. intros Hvars H Hn Hv.
   destruct (str_eqb n (s "Boolean")) eqn:E1.
   { apply str_eqb_eq in E1. subst n. cbn. destruct v; try reflexivity; try discriminate. exfalso; eapply Hn; reflexivity. }
   destruct (str_eqb n (s "Int")) eqn:E2.
@@ -172,7 +237,7 @@ Proof.
   { destruct v; try reflexivity; try discriminate. exfalso; eapply Hn; reflexivity. }
   destruct (str_eqb n (s "ID")) eqn:E5.
   { destruct v; try reflexivity; try discriminate. exfalso; eapply Hn; reflexivity. }
-  reflexivity.
+  cbn [orb] in Hvars. apply vars_nil_no_vars. exact Hvars.
 Qed.
 
 Section Values.
@@ -186,45 +251,44 @@ Section Values.
     apply check_input_fields_nil in H. tauto.
   Qed.
 
+  (** the loop over definitions, shared by input-object literals and argument lists: no diagnostic from the
+      occurrences, every required definition present, not more entries than counted occurrences *)
+  Lemma entries_sound (vo : value -> ty -> bool) (defs : list inputvaldef) (al : list (ident * value)) :
+    NoDup (map (fun a => iname (iv_name a)) defs) ->
+    Forall (fun kv => forall t, check_value doc (snd kv) t = [] -> vo (snd kv) t = true) al ->
+    (forall d, In d defs -> occ_errs (check_value doc) d al = []) ->
+    forallb (known defs) al = true ->
+    forall k fv, In (k, fv) al -> exists fd, arg_named defs (iname k) = Some fd /\ vo fv (iv_type fd) = true.
+  Proof.
+    intros Hnd HIH Herrs Hknown k fv Hin. rewrite forallb_forall in Hknown.
+    destruct (known_arg_named defs (k, fv) (Hknown _ Hin)) as [fd Hfd]. cbn [fst] in Hfd. exists fd. split; [exact Hfd|].
+    apply arg_named_some in Hfd as [Hfdin Hname].
+    pose proof (proj1 (occ_errs_nil _ _ _) (Herrs fd Hfdin) k fv Hin Hname) as Hc.
+    rewrite Forall_forall in HIH. apply (HIH (k, fv) Hin). apply expected_ty_nil with (d := fd). exact Hc.
+  Qed.
+
   (** the InputObject case *)
-  Lemma input_object_sound (cv : value -> ty -> list cerr) (vo : value -> ty -> bool) fields fs :
+  Lemma input_object_sound (vo : value -> ty -> bool) fields fs :
     NoDup (map (fun a => iname (iv_name a)) fields) ->
-    Forall (fun kv => forall t, cv (snd kv) t = [] -> vo (snd kv) t = true) fs ->
-    fst (fst (input_object_check cv fields fs)) = [] ->
-    snd (fst (input_object_check cv fields fs)) = true ->
-    nodup_str (keys_of fs) = true /\ each_field vo fields fs = true /\
+    Forall (fun kv => forall t, check_value doc (snd kv) t = [] -> vo (snd kv) t = true) fs ->
+    fst (fst (input_object_check (check_value doc) fields fs)) = [] ->
+    snd (fst (input_object_check (check_value doc) fields fs)) = true ->
+    each_field vo fields fs = true /\
     forallb (fun fd => negb (is_required fd) || existsb (fun kv => str_eqb (iname (fst kv)) (iname (iv_name fd))) fs) fields = true.
   Proof.
     intros Hnd HIH. unfold input_object_check. cbn [fst snd]. intros Herrs Hok.
     apply andb_true_iff in Hok as [Hres Hext]. apply negb_true_iff, Nat.ltb_ge in Hext.
-    (* counting *)
-    assert (Hcount : length (filter (fun ef => is_some (look_field cv ef fs)) fields)
-                     = length (filter (fun n => mem n (keys_of fs)) (map (fun a => iname (iv_name a)) fields))).
-    { rewrite <- filter_map_comm, map_length. f_equal. apply filter_ext. intros a. apply look_field_some. }
-    rewrite Hcount in Hext. replace (length fs) with (length (keys_of fs)) in Hext by apply map_length.
-    destruct (count_cover _ _ Hnd Hext) as [Hkeys Hincl].
-    split; [apply nodup_str_NoDup; exact Hkeys|]. split.
-    - (* every provided field is known and fits *)
-      rewrite flat_map_nil in Herrs.
-      assert (Hall : forall k fv, In (k, fv) fs -> exists fd, arg_named fields (iname k) = Some fd /\ vo fv (iv_type fd) = true).
-      { intros k fv Hin.
-        assert (Hk : In (iname k) (map (fun a => iname (iv_name a)) fields)).
-        { apply Hincl. apply (in_map (fun kv => iname (fst kv)) fs (k, fv)). exact Hin. }
-        apply arg_named_In in Hk as [fd [Hfd Hname]]. exists fd. split; [exact Hfd|].
-        apply arg_named_some in Hfd as [Hfdin _]. specialize (Herrs fd Hfdin).
-        rewrite (look_field_In cv fd fs k fv Hkeys Hin Hname) in Herrs.
-        rewrite Forall_forall in HIH. apply (HIH (k, fv) Hin). exact Herrs. }
+    rewrite (occ_sum_known fields fs Hnd) in Hext. apply filter_length_all in Hext.
+    rewrite flat_map_nil in Herrs. split.
+    - pose proof (entries_sound vo fields fs Hnd HIH Herrs Hext) as Hall.
       clear - Hall. induction fs as [|[k fv] r IH]; [reflexivity|]. cbn [each_field].
       destruct (Hall k fv (or_introl eq_refl)) as [fd [-> Hv]]. rewrite Hv. cbn [andb].
       apply IH. intros k' fv' Hin. apply Hall. right; exact Hin.
     - apply forallb_forall. intros fd Hfd. rewrite forallb_forall in Hres. specialize (Hres fd Hfd).
-      rewrite <- iv_required_is.
-      destruct (look_field cv fd fs) eqn:L.
-      + assert (Hs : is_some (look_field cv fd fs) = true) by (rewrite L; reflexivity).
-        rewrite look_field_some in Hs. apply mem_In in Hs. apply orb_true_iff. right.
-        apply existsb_exists. unfold keys_of in Hs. apply in_map_iff in Hs as [kv [Hkv Hin]].
-        exists kv. split; [exact Hin | apply str_eqb_eq; exact Hkv].
-      + rewrite Hres. reflexivity.
+      rewrite <- iv_required_is. apply orb_true_iff in Hres as [Hp|Hr]; [|rewrite Hr; reflexivity].
+      apply orb_true_iff. right. apply Nat.ltb_lt in Hp. apply occ_count_pos in Hp.
+      apply existsb_exists. unfold keys_of in Hp. apply in_map_iff in Hp as [kv [Hkv Hin]].
+      exists kv. split; [exact Hin | apply str_eqb_eq; exact Hkv].
   Qed.
 
   Lemma check_named_sound v t n :
@@ -237,7 +301,8 @@ Section Values.
     destruct (lookup_t doc (iname n)) as [td|] eqn:L; [|discriminate].
     apply lookup_t_In in L as [Lin Ln]. destruct td.
     - (* scalar *) intros H. cbn [typedef_name] in Ln. unfold tn in Ln. cbn [typedef_name] in Ln. rewrite Ln in H.
-      apply builtin_scalar_sound; [|exact Hn|exact Hv].
+      apply app_eq_nil in H as [H1 H2].
+      apply builtin_scalar_sound; [exact H1| |exact Hn|exact Hv].
       destruct (builtin_scalar_ok (iname n) v); [reflexivity | discriminate].
     - discriminate.
     - discriminate.
@@ -247,10 +312,10 @@ Section Values.
     - (* input object *) destruct v; try discriminate; [exfalso; eapply Hn; reflexivity|].
       destruct (input_object_check (check_value doc) fields fs) as [[errs ok] info] eqn:E. intros H.
       apply app_eq_nil in H as [H1 H2]. destruct ok; [|discriminate].
-      pose proof (input_object_sound (check_value doc) (value_ok true doc) fields fs
+      pose proof (input_object_sound (value_ok true doc) fields fs
                     (input_fields_nodup _ _ _ _ _ _ Lin) (HIH _ fs eq_refl)) as Hs.
-      rewrite E in Hs. cbn [fst snd] in Hs. destruct (Hs H1 eq_refl) as [A [B C]].
-      unfold keys_of in A. rewrite A, B, C. reflexivity.
+      rewrite E in Hs. cbn [fst snd] in Hs. destruct (Hs H1 eq_refl) as [B C].
+      rewrite B, C. reflexivity.
   Qed.
 
   Lemma value_sound v : forall t, check_value doc v t = [] -> value_ok true doc v t = true.
@@ -266,22 +331,20 @@ Section Values.
       intros p' fs' Heq. injection Heq as <- <-. exact H.
   Qed.
 
-  (** check_arguments = [] : known names, required arguments present, values fit.
-      The application must not name an argument twice (Argument Uniqueness, a rule nitrogql does not implement:
-      only the first of two equally named arguments is looked at). *)
+  (** check_arguments = [] : known names, required arguments present, values fit -- for every occurrence of every
+      argument (since 7d19234 an argument given twice has both values checked) *)
   Lemma check_arguments_sound ppos pname kind (a : directive) (d : directivedef) :
     NoDup (map (fun x => iname (iv_name x)) (args_of (dd_args d))) ->
-    NoDup (keys_of (app_args a)) ->
     check_arguments doc ppos pname kind (dir_args a) (opt_list (dd_args d)) = [] ->
     app_args_ok true doc a d = true.
   Proof.
-    intros Hnd Hkeys. unfold app_args_ok. rewrite opt_list_args_of. fold (args_of (dd_args d)).
+    intros Hnd. unfold app_args_ok. rewrite opt_list_args_of. fold (args_of (dd_args d)).
     set (defs := args_of (dd_args d)) in *. unfold check_arguments, app_args in *.
     set (al := match dir_args a with Some x => args_list x | None => [] end) in *.
     set (apos := match dir_args a with None => ppos | Some a0 => args_pos a0 end).
     intros H.
     assert (Hmain : flat_map (arg_errs doc al apos) defs = [] /\
-                    (Nat.ltb (length (filter (fun d0 => is_some (find_arg (iname (iv_name d0)) al)) defs)) (length al) = true ->
+                    (Nat.ltb (list_sum (map (fun d0 => occ_count (iname (iv_name d0)) al) defs)) (length al) = true ->
                      flat_map (fun kv : ident * value =>
                         if forallb (fun d0 => negb (str_eqb (iname (iv_name d0)) (iname (fst kv)))) defs
                         then [err (UnknownArgument (iname (fst kv))) (ipos (fst kv))] else []) al = [])).
@@ -291,27 +354,25 @@ Section Values.
       - apply app_eq_nil in H as [H1 H2]. split; [exact H1|]. intros E. rewrite E in H2. exact H2. }
     clear H. destruct Hmain as [Herrs Htail]. rewrite flat_map_nil in Herrs.
     (* every given argument is declared *)
-    assert (Hknown : incl (keys_of al) (map (fun x => iname (iv_name x)) defs)).
+    assert (Hknown : forallb (known defs) al = true).
     { destruct (Nat.ltb _ (length al)) eqn:Elt.
-      - specialize (Htail eq_refl). rewrite flat_map_nil in Htail.
-        intros k Hk. unfold keys_of in Hk. apply in_map_iff in Hk as [kv [<- Hkv]]. specialize (Htail kv Hkv).
+      - specialize (Htail eq_refl). rewrite flat_map_nil in Htail. apply forallb_forall. intros kv Hkv. specialize (Htail kv Hkv).
         destruct (forallb (fun d1 => negb (str_eqb (iname (iv_name d1)) (iname (fst kv)))) defs) eqn:F; [discriminate|].
-        apply forallb_negb_false in F. apply existsb_exists in F as [x [Hx He]]. apply str_eqb_eq in He.
-        rewrite <- He. apply (in_map (fun x0 => iname (iv_name x0))). exact Hx.
-      - apply Nat.ltb_ge in Elt.
-        assert (Hcount : length (filter (fun d0 => is_some (find_arg (iname (iv_name d0)) al)) defs)
-                         = length (filter (fun n => mem n (keys_of al)) (map (fun x => iname (iv_name x)) defs))).
-        { rewrite <- filter_map_comm, map_length. f_equal. apply filter_ext. intros x. apply find_arg_some. }
-        rewrite Hcount in Elt. replace (length al) with (length (keys_of al)) in Elt by apply map_length.
-        apply (count_cover _ _ Hnd Elt). }
+        apply forallb_negb_false in F. exact F.
+      - apply Nat.ltb_ge in Elt. rewrite (occ_sum_known defs al Hnd) in Elt. apply filter_length_all. exact Elt. }
+    (* no diagnostic from the occurrences of any definition *)
+    assert (Hocc : forall d0, In d0 defs -> occ_errs (check_value doc) d0 al = []).
+    { intros d0 Hd0. specialize (Herrs d0 Hd0). unfold arg_errs in Herrs.
+      destruct (find_arg (iname (iv_name d0)) al) eqn:F; [exact Herrs|].
+      apply occ_errs_nil. intros k fv Hin Hn. exfalso.
+      assert (Hs : is_some (find_arg (iname (iv_name d0)) al) = true).
+      { rewrite find_arg_some. apply mem_In. rewrite Hn. apply (in_map (fun kv => iname (fst kv)) al (k, fv)). exact Hin. }
+      rewrite F in Hs. discriminate. }
     apply andb_true_iff. split.
     - apply forallb_forall. intros [k v] Hkv. cbn [fst snd].
-      assert (Hk : In (iname k) (map (fun x => iname (iv_name x)) defs)).
-      { apply Hknown. apply (in_map (fun kv => iname (fst kv)) al (k, v)). exact Hkv. }
-      apply arg_named_In in Hk as [ad [Had Hname]]. rewrite Had.
-      apply arg_named_some in Had as [Hadin _]. specialize (Herrs ad Hadin). unfold arg_errs in Herrs.
-      rewrite (find_arg_In (iname (iv_name ad)) al k v Hkeys Hkv Hname) in Herrs.
-      apply value_sound. exact Herrs.
+      assert (HIH : Forall (fun kv : ident * value => forall t, check_value doc (snd kv) t = [] -> value_ok true doc (snd kv) t = true) al).
+      { apply Forall_forall. intros kv _ t. apply value_sound. }
+      destruct (entries_sound (value_ok true doc) defs al Hnd HIH Hocc Hknown k v Hkv) as [fd [-> Hv]]. exact Hv.
     - apply forallb_forall. intros ad Had. specialize (Herrs ad Had). unfold arg_errs in Herrs.
       rewrite <- iv_required_is.
       destruct (find_arg (iname (iv_name ad)) al) eqn:F.
